@@ -90,7 +90,7 @@ where
         jobs.push(Box::new(move |ctx: &Ctx, bud: &Budgets, rep: &mut Report| {
             let name = e.prog.name.clone();
             let mut rng = ctx.rng(&format!("c05-inputs-{name}"));
-            let inputs = gen_inputs(&e, idx, bud.n_boundary, bud.n_random, &mut rng);
+            let inputs = cat_field::gen_inputs(&e, idx, bud.n_boundary, bud.n_random, &mut rng);
             let opts = if e.prog.nonunique { &bud.opts_nonunique } else { &bud.opts };
             let st = check_op(&e.prog, &inputs, opts, ctx.seed, rep);
             let mut ast = AttackStats::default();
@@ -223,7 +223,11 @@ fn main() {
         .par_iter()
         .map(|job| {
             let mut part = rep.fork();
+            let t0 = std::time::Instant::now();
             let r = job(&ctx, &bud, &mut part);
+            if std::env::var("MZV_C05_TIMING").is_ok() {
+                eprintln!("[c05] {:>8.1}s {} {:?}", t0.elapsed().as_secs_f64(), r.0, r.2);
+            }
             (part, r)
         })
         .collect();
